@@ -20,6 +20,8 @@ import MdVerif.Lemmas.F.PlaceholdersXFM
 import MdVerif.Lemmas.F.PlaceholdersXLate
 
 namespace MdVerif.NoCtlXF
+variable [MdVerif.NoCtlF.HtmlBound]
+set_option linter.unusedSectionVars false
 open Py
 open Inline hiding STX ETX
 open InlineX
@@ -79,11 +81,15 @@ theorem fnQ_lit {wl : Bool} (tag : String) (attrs : List (Str × Str)) (kids : L
 theorem nbsp_eq : FootnotesTree.nbspPlaceholder = frnToken "qq3936677670287331zz".toList := rfl
 theorem backlinkText_eq : FootnotesTree.fnBacklinkText = frnToken "zz1337820767766393qq".toList := rfl
 
+section FnOn
+/-! `FootnoteTreeprocessor` only runs when footnotes is enabled: the grammar admits footnote tokens -/
+variable [FnOn]
+
 theorem wf_nbsp {esc : Bool} {k : Nat} : WF esc k FootnotesTree.nbspPlaceholder := by
-  rw [nbsp_eq]; exact wf_frnToken (.inr rfl)
+  rw [nbsp_eq]; exact wf_frnToken (.inl ⟨FnOn.out, .inr rfl⟩)
 
 theorem wf_backlinkText {esc : Bool} {k : Nat} : WF esc k FootnotesTree.fnBacklinkText := by
-  rw [backlinkText_eq]; exact wf_frnToken (.inl rfl)
+  rw [backlinkText_eq]; exact wf_frnToken (.inl ⟨FnOn.out, .inl rfl⟩)
 
 /-- a string of ordinary characters and footnote tokens, of the domain, is a string of the tree -/
 theorem strT_of_fwf {k : Nat} {s : Str} (h : WF false 0 s) (hd : DomB s) (ha : Adj3 s) : StrT k (some s) :=
@@ -273,6 +279,8 @@ theorem makeDiv_spec (x : PipelineX.Exts) (cfg : Pipeline.Cfg) (wl : Bool) {log 
     · cases h
     · cases h
 
+end FnOn
+
 mutual
 theorem placeNode_forall {Q : Node → Prop} (hu : ∀ n, Q n → Q { n with tail := none, tailAtomic := false })
     (hk : ∀ n kids, Q n → Q { n with children := kids }) {div : Node} (hd : div.Forall Q) : ∀ (t : Node) {t' : Node}, t.Forall Q → FootnotesTree.placeNode div t = some t' →
@@ -338,38 +346,52 @@ theorem placeDiv_forall {Q : Node → Prop} (hu : ∀ n, Q n → Q { n with tail
 
 /-! ## 3. `FootnotePostTreeprocessor` -/
 
-theorem setAttr_fnodeX {n : Node} (h : n.Forall FNodeX) {k v : Str} (hk : NoCtl k) (hv : WF true 0 v) :
-    (n.setAttr k v).Forall FNodeX := by
+/-- an element right behind the inline stage: `FNodeX`, and its attribute values hold no token at all (the `href` of
+    a back-link is cut at its first `:`, which must not be the `:` of a raw-HTML placeholder) -/
+def FNodeA (n : Node) : Prop := FNodeX n ∧ attrsNoCtl n.attrs
+
+theorem setAttr_fnodeA {n : Node} (h : n.Forall FNodeA) {k v : Str} (hk : NoCtl k) (hv : NoCtl v) :
+    (n.setAttr k v).Forall FNodeA := by
   rw [Node.forall_iff] at h
-  obtain ⟨⟨h1, h2, h3, h4, h5⟩, hkids⟩ := h
+  obtain ⟨⟨⟨h1, h2, h3, h4, h5⟩, ha⟩, hkids⟩ := h
   unfold Node.setAttr
   split
   · rw [Node.forall_iff]
-    refine ⟨⟨h1, ?_, h3, h4, h5⟩, hkids⟩
-    intro kv hkv
-    simp only [List.mem_map] at hkv
-    obtain ⟨x, hx, rfl⟩ := hkv
-    split
-    · exact ⟨hk, hv⟩
-    · exact h2 x hx
+    refine ⟨⟨⟨h1, ?_, h3, h4, h5⟩, ?_⟩, hkids⟩
+    · intro kv hkv
+      simp only [List.mem_map] at hkv
+      obtain ⟨x, hx, rfl⟩ := hkv
+      split
+      · exact ⟨hk, WF.of_noCtl hv⟩
+      · exact h2 x hx
+    · intro kv hkv
+      simp only [List.mem_map] at hkv
+      obtain ⟨x, hx, rfl⟩ := hkv
+      split
+      · exact ⟨hk, hv⟩
+      · exact ha x hx
   · rw [Node.forall_iff]
-    refine ⟨⟨h1, ?_, h3, h4, h5⟩, hkids⟩
-    intro kv hkv
-    rcases List.mem_append.1 hkv with hkv | hkv
-    · exact h2 kv hkv
-    · rw [List.mem_singleton.1 hkv]; exact ⟨hk, hv⟩
+    refine ⟨⟨⟨h1, ?_, h3, h4, h5⟩, ?_⟩, hkids⟩
+    · intro kv hkv
+      rcases List.mem_append.1 hkv with hkv | hkv
+      · exact h2 kv hkv
+      · rw [List.mem_singleton.1 hkv]; exact ⟨hk, WF.of_noCtl hv⟩
+    · intro kv hkv
+      rcases List.mem_append.1 hkv with hkv | hkv
+      · exact ha kv hkv
+      · rw [List.mem_singleton.1 hkv]; exact ⟨hk, hv⟩
 
 /-- the `href`s of the copied back-links: the original cut at its first `:`, a number in between -/
-theorem duplicateLinks_wf {count : Nat} {href h : Str} (hw : WF true 0 href)
-    (hm : h ∈ Footnotes.duplicateLinks count [href]) : WF true 0 h := by
+theorem duplicateLinks_noctl {count : Nat} {href h : Str} (hw : NoCtl href)
+    (hm : h ∈ Footnotes.duplicateLinks count [href]) : NoCtl h := by
   simp only [Footnotes.duplicateLinks] at hm
   split at hm
   · next ref rest hs =>
     simp only [List.mem_map] at hm
     obtain ⟨i, -, rfl⟩ := hm
     rw [splitFirst_spec hs] at hw
-    obtain ⟨w1, w2⟩ := wf0_cut hw cut_colon
-    exact (w1.append (WF.of_noCtl (natToDec_noctl i))).append (wf0_cons cut_colon w2)
+    obtain ⟨w1, w2⟩ := noCtl_append.1 hw
+    exact noCtl_append.2 ⟨noCtl_append.2 ⟨w1, natToDec_noctl i⟩, w2⟩
   · cases hm
 
 mutual
@@ -396,11 +418,11 @@ theorem firstBackrefKids_forall {Q : Node → Prop} : ∀ (l : List Node) {a : N
     · exact firstBackrefKids_forall r h.2 hr
 end
 
-theorem getAttr_wf {n : Node} (h : FNodeX n) (k : Str) : WF true 0 ((n.getAttr k).getD []) := by
+theorem getAttr_noctl {n : Node} (h : FNodeA n) (k : Str) : NoCtl ((n.getAttr k).getD []) := by
   unfold Node.getAttr
   cases hf : n.attrs.find? (fun kv => kv.1 = k) with
-  | none => exact .nil
-  | some kv => exact (h.2.1 kv (List.mem_of_find?_eq_some hf)).2
+  | none => exact noCtl_nil
+  | some kv => exact (h.2 kv (List.mem_of_find?_eq_some hf)).2
 
 theorem setLast_forall {Q : Node → Prop} (hk : ∀ n kids, Q n → Q { n with children := kids }) {li new : Node}
     (hli : li.Forall Q) (hnew : new.Forall Q) : (li.setLast new).Forall Q := by
@@ -412,10 +434,10 @@ theorem setLast_forall {Q : Node → Prop} (hk : ∀ n kids, Q n → Q { n with 
   · exact hli.2 c ((List.dropLast_sublist _).subset hc)
   · rw [List.mem_singleton.1 hc]; exact hnew
 
-theorem fnodeX_kids {n : Node} (h : FNodeX n) (kids : List Node) : FNodeX { n with children := kids } := h
+theorem fnodeA_kids {n : Node} (h : FNodeA n) (kids : List Node) : FNodeA { n with children := kids } := h
 
-theorem dupLi_fnodeX (fn : Footnotes.State) {li li' : Node} (hli : li.Forall FNodeX)
-    (h : FootnotesTree.dupLi fn li = some li') : li'.Forall FNodeX := by
+theorem dupLi_fnodeA (fn : Footnotes.State) {li li' : Node} (hli : li.Forall FNodeA)
+    (h : FootnotesTree.dupLi fn li = some li') : li'.Forall FNodeA := by
   unfold FootnotesTree.dupLi at h
   simp only [] at h
   split at h
@@ -424,29 +446,29 @@ theorem dupLi_fnodeX (fn : Footnotes.State) {li li' : Node} (hli : li.Forall FNo
     · split at h
       · simp only [Option.some.injEq] at h; subst h; exact hli
       · next link hlink =>
-        have hlk : link.Forall FNodeX := firstBackref_forall li hli hlink
+        have hlk : link.Forall FNodeA := firstBackref_forall li hli hlink
         split at h
         · cases h
         · split at h
           · next last hlast =>
             simp only [Option.some.injEq] at h; subst h
-            have hlast' : last.Forall FNodeX :=
+            have hlast' : last.Forall FNodeA :=
               ((Node.forall_iff _ _).1 hli).2 last (List.mem_of_getLast? hlast)
-            refine setLast_forall (Q := FNodeX) (fun _ kids hn => fnodeX_kids hn kids) hli ?_
+            refine setLast_forall (Q := FNodeA) (fun _ kids hn => fnodeA_kids hn kids) hli ?_
             rw [Node.forall_iff] at hlast' ⊢
-            refine ⟨fnodeX_kids hlast'.1 _, ?_⟩
+            refine ⟨fnodeA_kids hlast'.1 _, ?_⟩
             intro c hc
             rcases List.mem_append.1 hc with hc | hc
             · exact hlast'.2 c hc
             · simp only [List.mem_map] at hc
               obtain ⟨hr, hhr, rfl⟩ := hc
-              exact setAttr_fnodeX hlk (by decide)
-                (duplicateLinks_wf (getAttr_wf ((Node.forall_iff _ _).1 hlk).1 _) hhr)
+              exact setAttr_fnodeA hlk (by decide)
+                (duplicateLinks_noctl (getAttr_noctl ((Node.forall_iff _ _).1 hlk).1 _) hhr)
           · cases h
     · simp only [Option.some.injEq] at h; subst h; exact hli
 
-theorem dupLis_fnodeX (fn : Footnotes.State) : ∀ (l : List Node) {l' : List Node}, Node.ForallL FNodeX l →
-    FootnotesTree.dupLis fn l = some l' → Node.ForallL FNodeX l'
+theorem dupLis_fnodeA (fn : Footnotes.State) : ∀ (l : List Node) {l' : List Node}, Node.ForallL FNodeA l →
+    FootnotesTree.dupLis fn l = some l' → Node.ForallL FNodeA l'
   | [], l', _, h => by simp only [FootnotesTree.dupLis, Option.some.injEq] at h; subst h; simp [Node.ForallL]
   | li :: r, l', hl, h => by
     simp only [Node.ForallL] at hl
@@ -455,12 +477,12 @@ theorem dupLis_fnodeX (fn : Footnotes.State) : ∀ (l : List Node) {l' : List No
     · next li' r' h1 h2 =>
       simp only [Option.some.injEq] at h; subst h
       simp only [Node.ForallL]
-      exact ⟨dupLi_fnodeX fn hl.1 h1, dupLis_fnodeX fn r hl.2 h2⟩
+      exact ⟨dupLi_fnodeA fn hl.1 h1, dupLis_fnodeA fn r hl.2 h2⟩
     · cases h
 
 mutual
-theorem dupFirstOl_fnodeX (fn : Footnotes.State) : ∀ (n : Node) {n' : Node} {b : Bool}, n.Forall FNodeX →
-    FootnotesTree.dupFirstOl fn n = some (n', b) → n'.Forall FNodeX
+theorem dupFirstOl_fnodeA (fn : Footnotes.State) : ∀ (n : Node) {n' : Node} {b : Bool}, n.Forall FNodeA →
+    FootnotesTree.dupFirstOl fn n = some (n', b) → n'.Forall FNodeA
   | ⟨tag, attrs, text, ta, children, tail, tla⟩, n', b, hn, h => by
     simp only [Node.Forall] at hn
     simp only [FootnotesTree.dupFirstOl] at h
@@ -470,17 +492,17 @@ theorem dupFirstOl_fnodeX (fn : Footnotes.State) : ∀ (n : Node) {n' : Node} {b
         simp only [Option.some.injEq, Prod.mk.injEq] at h
         rw [← h.1]
         simp only [Node.Forall]
-        exact ⟨hn.1, dupLis_fnodeX fn children hn.2 hk⟩
+        exact ⟨hn.1, dupLis_fnodeA fn children hn.2 hk⟩
       · cases h
     · split at h
       · next ks found hk =>
         simp only [Option.some.injEq, Prod.mk.injEq] at h
         rw [← h.1]
         simp only [Node.Forall]
-        exact ⟨hn.1, dupFirstOlKids_fnodeX fn children hn.2 hk⟩
+        exact ⟨hn.1, dupFirstOlKids_fnodeA fn children hn.2 hk⟩
       · cases h
-theorem dupFirstOlKids_fnodeX (fn : Footnotes.State) : ∀ (l : List Node) {l' : List Node} {b : Bool},
-    Node.ForallL FNodeX l → FootnotesTree.dupFirstOlKids fn l = some (l', b) → Node.ForallL FNodeX l'
+theorem dupFirstOlKids_fnodeA (fn : Footnotes.State) : ∀ (l : List Node) {l' : List Node} {b : Bool},
+    Node.ForallL FNodeA l → FootnotesTree.dupFirstOlKids fn l = some (l', b) → Node.ForallL FNodeA l'
   | [], l', b, _, h => by
     simp only [FootnotesTree.dupFirstOlKids, Option.some.injEq, Prod.mk.injEq] at h
     rw [← h.1]; simp [Node.ForallL]
@@ -493,30 +515,30 @@ theorem dupFirstOlKids_fnodeX (fn : Footnotes.State) : ∀ (l : List Node) {l' :
       simp only [Option.some.injEq, Prod.mk.injEq] at h
       rw [← h.1]
       simp only [Node.ForallL]
-      exact ⟨dupFirstOl_fnodeX fn c hl.1 h1, hl.2⟩
+      exact ⟨dupFirstOl_fnodeA fn c hl.1 h1, hl.2⟩
     · next c1 h1 =>
       split at h
       · next r1 found h2 =>
         simp only [Option.some.injEq, Prod.mk.injEq] at h
         rw [← h.1]
         simp only [Node.ForallL]
-        exact ⟨dupFirstOl_fnodeX fn c hl.1 h1, dupFirstOlKids_fnodeX fn r hl.2 h2⟩
+        exact ⟨dupFirstOl_fnodeA fn c hl.1 h1, dupFirstOlKids_fnodeA fn r hl.2 h2⟩
       · cases h
 end
 
 mutual
-/-- **`FootnotePostTreeprocessor.run` keeps `FNodeX`**: the copies of the back-link get an `href` cut out of the
+/-- **`FootnotePostTreeprocessor.run` keeps `FNodeA`**: the copies of the back-link get an `href` cut out of the
     original one at `:` -/
-theorem duplicates_fnodeX (fn : Footnotes.State) : ∀ (n : Node) {n' : Node}, n.Forall FNodeX →
-    FootnotesTree.duplicates fn n = some n' → n'.Forall FNodeX
+theorem duplicates_fnodeA (fn : Footnotes.State) : ∀ (n : Node) {n' : Node}, n.Forall FNodeA →
+    FootnotesTree.duplicates fn n = some n' → n'.Forall FNodeA
   | ⟨tag, attrs, text, ta, children, tail, tla⟩, n', hn, h => by
     simp only [Node.Forall] at hn
     simp only [FootnotesTree.duplicates] at h
     split at h
     · cases h
     · next ks hk =>
-      have hks := duplicatesKids_fnodeX fn children hn.2 hk
-      have h1 : (⟨tag, attrs, text, ta, ks, tail, tla⟩ : Node).Forall FNodeX := by
+      have hks := duplicatesKids_fnodeA fn children hn.2 hk
+      have h1 : (⟨tag, attrs, text, ta, ks, tail, tla⟩ : Node).Forall FNodeA := by
         simp only [Node.Forall]; exact ⟨hn.1, hks⟩
       split at h
       · cases hd : FootnotesTree.dupFirstOl fn ⟨tag, attrs, text, ta, ks, tail, tla⟩ with
@@ -526,10 +548,10 @@ theorem duplicates_fnodeX (fn : Footnotes.State) : ∀ (n : Node) {n' : Node}, n
           rw [hd] at h
           simp only [Option.map_some, Option.some.injEq] at h
           subst h
-          exact dupFirstOl_fnodeX fn _ h1 hd
+          exact dupFirstOl_fnodeA fn _ h1 hd
       · simp only [Option.some.injEq] at h; subst h; exact h1
-theorem duplicatesKids_fnodeX (fn : Footnotes.State) : ∀ (l : List Node) {l' : List Node}, Node.ForallL FNodeX l →
-    FootnotesTree.duplicatesKids fn l = some l' → Node.ForallL FNodeX l'
+theorem duplicatesKids_fnodeA (fn : Footnotes.State) : ∀ (l : List Node) {l' : List Node}, Node.ForallL FNodeA l →
+    FootnotesTree.duplicatesKids fn l = some l' → Node.ForallL FNodeA l'
   | [], l', _, h => by
     simp only [FootnotesTree.duplicatesKids, Option.some.injEq] at h; subst h; simp [Node.ForallL]
   | c :: r, l', hl, h => by
@@ -539,13 +561,25 @@ theorem duplicatesKids_fnodeX (fn : Footnotes.State) : ∀ (l : List Node) {l' :
     · next c1 r1 h1 h2 =>
       simp only [Option.some.injEq] at h; subst h
       simp only [Node.ForallL]
-      exact ⟨duplicates_fnodeX fn c hl.1 h1, duplicatesKids_fnodeX fn r hl.2 h2⟩
+      exact ⟨duplicates_fnodeA fn c hl.1 h1, duplicatesKids_fnodeA fn r hl.2 h2⟩
     · cases h
 end
 
 /-! ## 4. the composition along `convertX` -/
 
-theorem fnodeX_of_wnodeB {n : Node} (h : WNodeB 0 n) : FNodeX n := by
+theorem fnodeA_of_wnodeB {n : Node} (h : WNodeB 0 n) : FNodeA n := by
+  obtain ⟨h1, h2, h3, h4, h5, h6⟩ := h
+  refine ⟨⟨h1, attrsTok_of_noCtl h2, h4.1, ?_, ?_⟩, h2⟩
+  · by_cases hat : n.textAtomic = true
+    · rw [if_pos hat] at h5; exact WF.mono (Nat.le_refl _) (by simp) h5
+    · rw [if_neg hat] at h5; exact h5.1
+  · intro hc
+    have hat := h6 hc
+    rw [if_pos hat] at h5; exact h5
+
+theorem fnodeX_of_wnodeB {n : Node} (h : WNodeB 0 n) : FNodeX n := (fnodeA_of_wnodeB h).1
+
+theorem fnodeX_of_wnodeB' {n : Node} (h : WNodeB 0 n) : FNodeX n := by
   obtain ⟨h1, h2, h3, h4, h5, h6⟩ := h
   refine ⟨h1, attrsTok_of_noCtl h2, h4.1, ?_, ?_⟩
   · by_cases hat : n.textAtomic = true
@@ -668,7 +702,7 @@ def AbbrKeysOKF (x : PipelineX.Exts) (cfg : Pipeline.Cfg) (src : Str) : Prop :=
     match BlockExt.parseDocumentXT x.tables x.blockCfg cfg.tab (Pipeline.prepare cfg src) with
     | some (_, log) =>
       match fnLog x cfg log with
-      | some log' => noDigitsAbbr (BlockExt.abbrsOf log') = true ∧ noFrnAbbr (BlockExt.abbrsOf log') = true
+      | some log' => noDigitsAbbr (BlockExt.abbrsOf log') = true ∧ noFrnAbbr true false (BlockExt.abbrsOf log') = true
       | none => True
     | none => True
 
@@ -684,7 +718,7 @@ instance (x : PipelineX.Exts) (cfg : Pipeline.Cfg) (src : Str) : Decidable (Abbr
     | some log' =>
       simp only [h]
       exact inferInstanceAs (Decidable (x.abbr = true →
-        noDigitsAbbr (BlockExt.abbrsOf log') = true ∧ noFrnAbbr (BlockExt.abbrsOf log') = true))
+        noDigitsAbbr (BlockExt.abbrsOf log') = true ∧ noFrnAbbr true false (BlockExt.abbrsOf log') = true))
 
 /-- with footnotes off the hypothesis is (stronger than) `AbbrKeysOK` -/
 theorem abbrKeysOK_of_F {x : PipelineX.Exts} (hfn : x.footnotes = false) {cfg : Pipeline.Cfg} {src : Str}
@@ -698,46 +732,70 @@ theorem abbrKeysOK_of_F {x : PipelineX.Exts} (hfn : x.footnotes = false) {cfg : 
     simp only [fnLog, hfn, Bool.false_eq_true, if_false] at this
     exact this.1
 
-/-- **end to end with footnotes on** (fenced code off, every other flag arbitrary), on the domain of
-    `C10_partial_links` (with wikilinks: no `[` immediately before a blank) -/
-theorem convertX_noctl_fn {x : PipelineX.Exts} (hfc : x.fencedCode = false) (hfn : x.footnotes = true)
-    {cfg : Pipeline.Cfg} (hcfg : EscOK cfg.esc) {src out : Str} (hd : C10DomainL cfg.tab src)
-    (hq : Qw x.wikilinks (Normalize.normalize cfg.tab src)) (habbr : AbbrKeysOKF x cfg src)
-    (h : PipelineX.convertX x cfg src = .ok out) : NoCtl out := by
-  rcases convertX_fn_ok hfn h with rfl | ⟨text, stash, root, log, div, log', t, xs, t', u, html, hp, hb, hm, hr, hdp, hl, hf⟩
-  · exact noCtl_nil
-  · obtain ⟨rfl, rfl⟩ := prepareX_nofence hfc hp
-    have hP : PW x.wikilinks (Pipeline.prepare cfg src) :=
-      ⟨prepare_domB cfg hd, by rw [prepare_eq_normalize cfg hd]; exact hq⟩
-    obtain ⟨hroot, hlog⟩ := BlkX.parseDocumentXT_strs (strDomX_adj3q x.wikilinks) x.tables x.blockCfg cfg.tab _ hP hb
-    obtain ⟨hdiv, hlog'⟩ := makeDiv_spec x cfg x.wikilinks hlog hm
-    have hrootQ : root.Forall (FnQ x.wikilinks) := Node.Forall.mono (fun _ hn => fnQ_of_bnodeXP hn) root hroot
-    have hfr : (fnRoot root div).Forall (FnQ x.wikilinks) := by
-      cases div with
-      | none => exact hrootQ
-      | some d => exact placeDiv_forall (fun _ hn => fnQ_untail hn) (fun _ kids hn => fnQ_kids hn kids) hrootQ (hdiv d rfl)
-    have htree : (fnRoot root div).Forall (WNodeB 0) := Node.Forall.mono (fun _ hn => hn.1) _ hfr
-    have htreeq : (fnRoot root div).Forall (QN x.wikilinks) := Node.Forall.mono (fun _ hn => hn.2.1) _ hfr
-    have hkeys : ∀ k ∈ (xcX x cfg log').fnKeys, NoCtl k := by
-      intro k hk
-      simp only [List.mem_map] at hk
-      obtain ⟨kv, hkv, rfl⟩ := hk
-      exact (allC_domB (BlkX.footnotesOf_c hlog' kv hkv).1).1
-    have hhi := hiSpecXB_tables (xc := xcX x cfg log') (escOK_escX x hcfg) (refsOK_of_logC x _ hlog') hkeys
-      (fn := x.footnotes) (wl := x.wikilinks) (nl := x.nl2br) rfl
-    obtain ⟨ht, hhtml⟩ := runX_specB hhi htree htreeq hr
-    have htX : t'.Forall FNodeX :=
-      duplicates_fnodeX xs.fn t (Node.Forall.mono (fun _ hn => fnodeX_of_wnodeB hn) t ht) hdp
-    rw [hhtml] at hl
-    refine late_noctl_fn hfn cfg ?_ htX hl hf
-    intro hxa
-    have hk := habbr hxa
-    rw [hb] at hk
-    simp only [fnLog, hfn, if_true, hm] at hk
-    exact ⟨abbrs_noctl hlog', hk.1, hk.2⟩
+/-- the abbreviation hypothesis of the generic tails -/
+def AbbrTabOK (x : PipelineX.Exts) (abbrs : List (Str × Str)) : Prop :=
+  x.abbr = true → (∀ kv ∈ abbrs, NoCtl kv.1 ∧ NoCtl kv.2) ∧ noDigitsAbbr abbrs = true ∧ NoFrnAbbr abbrs
 
-/-- the escapable characters: the hypothesis for the generalised grammar (`q` is an inner character too) implies the
-    one of the original grammar -/
+/-- **the stages behind the block parser with footnotes on**: block tree of `FnQ` elements (texts and tails of the
+    domain with foreign tokens), log of the token-free class, the raw-HTML stash as the grammar expects it
+    (`StashOK`); whatever the rest of `convertX` answers contains neither STX nor ETX -/
+theorem tail_fn [FnOn] {x : PipelineX.Exts} (hfn : x.footnotes = true) {cfg : Pipeline.Cfg} (hcfg : EscOK cfg.esc)
+    {stash : List Str} (hst : StashOK x stash) {root : Node} {log log' : Block.Refs} {div : Option Node}
+    (hroot : root.Forall (FnQ x.wikilinks)) (hlog : BlkX.LogC pDom (PW x.wikilinks) log)
+    (hm : FootnotesTree.makeDiv (PipelineX.parseChunkX x cfg) PipelineX.fnCount (BlockExt.footnotesOf log) log =
+      .ok (div, log'))
+    {t t' u : Node} {xs : InlineX.XSt} {html : List Str} {out : Str}
+    (hr : InlineX.runX (xcX x cfg log') (fnRoot root div) stash = some (t, xs))
+    (hdp : FootnotesTree.duplicates xs.fn t = some t')
+    (hl : lateX x cfg (BlockExt.abbrsOf log') t' xs.st.html = .ok u html)
+    (hf : PipelineX.finishX x cfg html (Ser.serialize cfg.fmt u) = .ok out)
+    (habbr : BlkX.LogC pDom (PW x.wikilinks) log' → AbbrTabOK x (BlockExt.abbrsOf log')) : NoCtl out := by
+  obtain ⟨hdiv, hlog'⟩ := makeDiv_spec x cfg x.wikilinks hlog hm
+  have hfr : (fnRoot root div).Forall (FnQ x.wikilinks) := by
+    cases div with
+    | none => exact hroot
+    | some d => exact placeDiv_forall (fun _ hn => fnQ_untail hn) (fun _ kids hn => fnQ_kids hn kids) hroot (hdiv d rfl)
+  have htree : (fnRoot root div).Forall (WNodeB 0) := Node.Forall.mono (fun _ hn => hn.1) _ hfr
+  have htreeq : (fnRoot root div).Forall (QN x.wikilinks) := Node.Forall.mono (fun _ hn => hn.2.1) _ hfr
+  have hkeys : ∀ k ∈ (xcX x cfg log').fnKeys, NoCtl k := by
+    intro k hk
+    simp only [List.mem_map] at hk
+    obtain ⟨kv, hkv, rfl⟩ := hk
+    exact (allC_domB (BlkX.footnotesOf_c hlog' kv hkv).1).1
+  have hhi := hiSpecXB_tables (xc := xcX x cfg log') (escOK_escX x hcfg) (refsOK_of_logC x _ hlog') hkeys
+    (fn := x.footnotes) (wl := x.wikilinks) (nl := x.nl2br) rfl
+  obtain ⟨ht, hhtml⟩ := runX_specB hhi htree htreeq hr
+  have htA : t'.Forall FNodeA :=
+    duplicates_fnodeA xs.fn t (Node.Forall.mono (fun _ hn => fnodeA_of_wnodeB hn) t ht) hdp
+  have htX : t'.Forall FNodeX := Node.Forall.mono (fun _ hn => hn.1) t' htA
+  rw [hhtml] at hl
+  exact late_noctl_st cfg hst (habbr hlog') htX hl hf
+
+/-- **the stages behind the block parser with footnotes off** -/
+theorem tail_nofn {x : PipelineX.Exts} (hfn : x.footnotes = false) {cfg : Pipeline.Cfg} (hcfg : EscOK cfg.esc)
+    {stash : List Str} (hst : StashOK x stash) {root : Node} {log : Block.Refs}
+    (hroot : root.Forall (FnQ x.wikilinks)) (hlog : BlkX.LogC pDom (PW x.wikilinks) log)
+    {t u : Node} {xs : InlineX.XSt} {html : List Str} {out : Str}
+    (hr : InlineX.runX (xcX x cfg log) root stash = some (t, xs))
+    (hl : lateX x cfg (BlockExt.abbrsOf log) t xs.st.html = .ok u html)
+    (hf : PipelineX.finishX x cfg html (Ser.serialize cfg.fmt u) = .ok out)
+    (habbr : AbbrTabOK x (BlockExt.abbrsOf log)) : NoCtl out := by
+  have htree : root.Forall (WNodeB 0) := Node.Forall.mono (fun _ hn => hn.1) _ hroot
+  have htreeq : root.Forall (QN x.wikilinks) := Node.Forall.mono (fun _ hn => hn.2.1) _ hroot
+  have hkeys : ∀ k ∈ (xcX x cfg log).fnKeys, NoCtl k := by
+    intro k hk
+    simp only [List.mem_map] at hk
+    obtain ⟨kv, hkv, rfl⟩ := hk
+    exact (allC_domB (BlkX.footnotesOf_c hlog kv hkv).1).1
+  have hhi := hiSpecXB_tables (xc := xcX x cfg log) (escOK_escX x hcfg) (refsOK_of_logC x _ hlog) hkeys
+    (fn := x.footnotes) (wl := x.wikilinks) (nl := x.nl2br) rfl
+  obtain ⟨ht, hhtml⟩ := runX_specB hhi htree htreeq hr
+  have htX : t.Forall FNodeX := Node.Forall.mono (fun _ hn => fnodeX_of_wnodeB hn) t ht
+  rw [hhtml] at hl
+  exact late_noctl_st cfg hst habbr htX hl hf
+
+/-- the escapable characters: the hypothesis for the generalised grammar (`q`, `d` are inner characters too) implies
+    the one of the original grammar -/
 theorem escOK_orig_of_F {l : List Char} (h : EscOK l) : MdVerif.NoCtl.EscOK l := by
   intro c hc
   obtain ⟨h1, h2, h3⟩ := h c hc
@@ -748,14 +806,5 @@ theorem escOK_orig_of_F {l : List Char} (h : EscOK l) : MdVerif.NoCtl.EscOK l :=
   have := h3.2
   simp only [List.contains_eq_mem, List.mem_cons, List.not_mem_nil, or_false, decide_eq_false_iff_not, not_or] at this ⊢
   exact ⟨this.1, this.2.1, this.2.2.1, this.2.2.2.1, this.2.2.2.2.1, this.2.2.2.2.2.1, this.2.2.2.2.2.2.1⟩
-
-/-- **end to end with every extension but fenced_code** -/
-theorem convertX_noctl_all_fn {x : PipelineX.Exts} (hfc : x.fencedCode = false)
-    {cfg : Pipeline.Cfg} (hcfg : EscOK cfg.esc) {src out : Str}
-    (hd : C10DomainL cfg.tab src) (hq : Qw x.wikilinks (Normalize.normalize cfg.tab src))
-    (habbr : AbbrKeysOKF x cfg src) (h : PipelineX.convertX x cfg src = .ok out) : NoCtl out := by
-  cases hfn : x.footnotes with
-  | true => exact convertX_noctl_fn hfc hfn hcfg hd hq habbr h
-  | false => exact convertX_noctl_all hfc hfn (escOK_orig_of_F hcfg) hd hq (abbrKeysOK_of_F hfn habbr) h
 
 end MdVerif.NoCtlXF
